@@ -56,6 +56,28 @@ def misuse_matrix(ctx):
             t(tag + ' mixed product x_A * z_B', cross(lambda A, xa, za, B, xb, zb: A.st(xa @ zb <= 1)))
             t(tag + ' objective of another model', cross(lambda A, xa, za, B, xb, zb: (A.min(xb.sum()), A.st(xa >= 0), C.solve_model(A))))
             t(tag + ' maxof with a foreign piece', cross(lambda A, xa, za, B, xb, zb: A.st(rso.maxof(xa[0], 2 * xb[0]) <= 5)))
+            t(tag + ' convex atom <= foreign variable', cross(lambda A, xa, za, B, xb, zb: A.st(rso.norm(xa) <= xb[0])))
+            t(tag + ' abs(x_A) <= x_B', cross(lambda A, xa, za, B, xb, zb: A.st(abs(xa) <= xb)))
+            t(tag + ' exp(x_A) <= x_B', cross(lambda A, xa, za, B, xb, zb: A.st(rso.exp(xa[0]) <= xb[0])))
+            t(tag + ' convex atom + foreign variable <= c', cross(lambda A, xa, za, B, xb, zb: A.st(rso.norm(xa) + xb[0] <= 1)))
+            t(tag + ' foreign variable >= convex atom', cross(lambda A, xa, za, B, xb, zb: A.st(xb[0] >= rso.sumsqr(xa))))
+            t(tag + ' objective convex atom + foreign variable', cross(lambda A, xa, za, B, xb, zb: A.min(rso.norm(xa) + xb[0])))
+            t(tag + ' maxof with a foreign bi-affine piece', cross(lambda A, xa, za, B, xb, zb: A.st(rso.maxof(xa[0], zb @ xb) <= 5)))
+            t(tag + ' expcone with foreign arguments', cross(lambda A, xa, za, B, xb, zb: A.st(rso.expcone(xa[0], xb[0], xb[1]))))
+            t(tag + ' expcone of a foreign variable', cross(lambda A, xa, za, B, xb, zb: A.st(rso.expcone(xb[0], xa[0], xa[1]))))
+            if ka == 'ro':
+                t(tag + ' ldr.adapt(foreign random variable)', cross(lambda A, xa, za, B, xb, zb: A.ldr(2).adapt(zb)))
+            if ka == 'dro':
+                t(tag + ' dvar.adapt(foreign random variable)', cross(lambda A, xa, za, B, xb, zb: xa.adapt(zb)))
+            if ka == 'dro' and kb == 'dro':
+                def amb_b(B, zb):
+                    fb = B.ambiguity(); fb.suppset(zb <= 1, zb >= 0); return fb
+                t(tag + ' minsup(foreign ambiguity set) at declaration', cross(lambda A, xa, za, B, xb, zb: A.minsup(rso.E(xa @ za), amb_b(B, zb))))
+                t(tag + ' maxinf(foreign ambiguity set) at declaration', cross(lambda A, xa, za, B, xb, zb: A.maxinf(rso.E(xa @ za), amb_b(B, zb))))
+                t(tag + ' linear constraint .forall(foreign ambiguity set)', cross(lambda A, xa, za, B, xb, zb: A.st((xa.sum() >= 0).forall(amb_b(B, zb)))))
+                t(tag + ' robust constraint .forall(foreign ambiguity set)', cross(lambda A, xa, za, B, xb, zb: A.st((xa @ za >= 0).forall(amb_b(B, zb)))))
+                t(tag + ' E-constraint .forall(foreign ambiguity set)', cross(lambda A, xa, za, B, xb, zb: A.st((rso.E(xa @ za) >= 0).forall(amb_b(B, zb)))))
+                t(tag + ' adapt(scenarios of a foreign ambiguity set)', cross(lambda A, xa, za, B, xb, zb: xa.adapt(amb_b(B, zb)[0])))
             if ka == 'ro':
                 t(tag + ' forall(foreign set)', cross(lambda A, xa, za, B, xb, zb: A.st((xa @ za <= 1).forall(zb <= 1, zb >= 0))))
                 t(tag + ' minmax(foreign set)', cross(lambda A, xa, za, B, xb, zb: A.minmax(xa @ za, zb <= 1, zb >= 0)))
@@ -113,6 +135,22 @@ def misuse_matrix(ctx):
             ctx.hit('misuse-accepted', {"what": name}, {"misuse": name})
         except Exception as ex:
             ctx.count('raised:' + type(ex).__name__)
+    # legal uses that must NOT raise (a guard that is too eager is a defect as well)
+    def legal_slice_objective():
+        A, xa, za = mk('dro'); A.min(xa[0])
+    def legal_slice_minsup():
+        A, xa, za = mk('dro'); fa = A.ambiguity(); fa.suppset(za <= 1, za >= 0); A.minsup(rso.E(xa[1] + za[0]), fa)
+    def legal_own_scen():
+        A, xa, za = mk('dro'); fa = A.ambiguity(); xa.adapt(fa[0])
+    for name, f in [('dro min(x[0]) of a vector', legal_slice_objective), ('dro minsup(E(x[1] + z[0]))', legal_slice_minsup),
+                    ('dro adapt(own scenario object)', legal_own_scen)]:
+        ctx.search_cases += 1; ctx.evaluations += 1; ctx.programs += 1
+        try:
+            with C.quiet():
+                f()
+            ctx.count('legal:accepted')
+        except Exception as ex:
+            ctx.hit('legal-use-rejected', {"what": name, "error": type(ex).__name__ + ': ' + str(ex)[:80]}, {"legal": name})
     ctx.sample({"misuse_patterns": len(tests)}, limit=1)
 
 
